@@ -57,8 +57,8 @@ def run(ctx):
                       {'cmd': 'echo "ovl 4 2 8 1003 s 1" | build/harness/h_loops-*', 'observed': ctl})
     ctx.phase('witness')
 
-    nplan = 250 if ctx.quick else 6000
-    npf = 150 if ctx.quick else 4000
+    nplan = 220 if ctx.quick else 6000
+    npf = 140 if ctx.quick else 4000
     plan = plan_common.run_plan_cases(ctx, plan_common.gen_cases(ctx, nplan, True))
     pf = plan_common.run_pf_cases(ctx, plan_common.gen_cases(ctx, npf, False))
     ctx.phase('run')
